@@ -176,6 +176,14 @@ def r8e(ctx: Ctx) -> RuleReport:
                        f'pattern tries {got}' if got != want else '', LEX,
                        key=f'{cp.name} dispatch {key} {blk.describe()}')
         for n, lang, sub in cp.alts:
+            if cp.lazy.get(n, 0):
+                # lazy alternative: the engine returns the shortest member at that position; the class language used
+                # by every other obligation is already the set of members without a proper prefix in the language
+                single = cp.lazy[n] == 1 and all_repeats_greedy([x for x in sub if x[0] is not __import__('pv.rx', fromlist=['sre_c']).sre_c.MIN_REPEAT])
+                rep.oblige(f'{cp.name}.{n}: one lazy repeat followed by a fixed tail, so the match is the shortest member at that position',
+                           single, '' if single else 'mixed lazy/greedy repeats: the matched text is not characterised', LEX,
+                           key=f'{cp.name}.{n} longest-match shape')
+                continue
             greedy = all_repeats_greedy(sub)
             det = deterministic(lang)
             rep.oblige(f'{cp.name}.{n}: greedy and 1-unambiguous, so the match is the longest member at that position',
@@ -677,6 +685,38 @@ def _check_evaluate(ctx, rep, ev: FuncInfo):
                     filt = False
     rep.oblige('values other than None/str/int/float are refused with ConstantError', filt, '', ev.loc(),
                key='penman.constant:evaluate: isinstance filter')
+    # every returned value is the one variable that holds: the text itself, None, or the json.loads result
+    rets = [n for n in walk_local(ev.node) if isinstance(n, ast.Return)]
+    rnames = {norm(r.value) if r.value is not None else None for r in rets}
+    single_var = len(rnames) == 1 and all(r.value is not None and isinstance(r.value, ast.Name) for r in rets)
+    rep.oblige('evaluate returns one result variable on every path', single_var,
+               '' if single_var else f'returns {sorted(map(str, rnames))}: a value leaves evaluate without passing the final type filter / JSON parser',
+               ev.loc(), key='penman.constant:evaluate: single result variable')
+    if single_var:
+        rv = rets[0].value.id
+        srcs = []
+        for n in walk_local(ev.node):
+            if isinstance(n, (ast.Assign, ast.AnnAssign)) and rv in __import__('pv.cfg', fromlist=['assigned_names']).assigned_names(n) and getattr(n, 'value', None) is not None:
+                srcs.append(n.value)
+        ok_src = True
+        for v in srcs:
+            vv = single_def(ctx, ev, v)
+            if isinstance(vv, ast.Constant) and vv.value is None:
+                continue
+            if isinstance(vv, ast.Name) and vv.id == p:
+                continue
+            if isinstance(vv, ast.Call) and dotted(vv.func) == 'json.loads':
+                continue
+            ok_src = False
+        rep.oblige('the result is the text itself, None, or what json.loads returned', ok_src,
+                   '' if ok_src else f'other sources: {[norm(x)[:40] for x in srcs]}', ev.loc(),
+                   key='penman.constant:evaluate: result provenance')
+    conv = [n for n in walk_local(ev.node) if isinstance(n, ast.Call) and isinstance(n.func, ast.Name) and n.func.id in ('int', 'float', 'complex', 'eval')
+            ]
+    rep.oblige('numbers are recognised by the JSON number grammar only (no int()/float() on the text)', not conv,
+               '' if not conv else f'{[norm(c)[:40] for c in conv]}: int()/float() accept texts that are not JSON numbers (leading zeros, '
+                                   f'non-ASCII digits, underscores, surrounding blanks) and raise ValueError on others',
+               ev.loc(), key='penman.constant:evaluate: no ad-hoc number conversion')
     raises = set()
     for n in walk_local(ev.node):
         if isinstance(n, ast.Raise) and n.exc is not None:
